@@ -512,6 +512,67 @@ fn views(out: &mut Out, rng: &mut Rng, thorough: bool) {
 				}
 			}
 		}
+		// element side of the views: ReadonlyPMMR::at at every earlier size and a RewindablePMMR
+		// rewound to a random position read through as_readonly(): get_data at every leaf, at inner
+		// nodes and beyond the size, get_last_n_insertions, elements_from_pmmr_index (with and
+		// without max_pmmr_pos1), leaf_pos_iter / leaf_idx_iter (which ignore the view's size).
+		// Oracle on the implementation: element i is served at its leaf position exactly when that
+		// position is below the view's size; last-n = the last elements below the size, newest first.
+		for (k, &s) in view_sizes.iter().enumerate() {
+			if n > 24 && !rng.chance(1, 4) && s != size {
+				continue;
+			}
+			let via_rewind = rng.chance(1, 2);
+			let mut rw = RewindablePMMR::at(&ba, size);
+			let v = if via_rewind {
+				// any position whose round-up is s: s itself is one
+				let _ = rw.rewind(s);
+				rw.as_readonly()
+			} else {
+				ReadonlyPMMR::at(&ba, s)
+			};
+			let vs = v.unpruned_size();
+			if vs != s {
+				out.raw(&format!("#ORACLE-FAIL C07 RewindablePMMR rewound to the MMR size {} reports size {}", s, vs));
+				continue;
+			}
+			for i in 0..n {
+				let pos = pmmr::insertion_to_pmmr_index(i);
+				if n > 12 && !rng.chance(1, 3) && i + 1 != k as u64 && i != k as u64 {
+					continue;
+				}
+				let d = v.get_data(pos);
+				out.line(&format!("pmmr vdata {} {}", s, pos), &opt_elem(d.clone()));
+				let want = if pos < s { Some(elems[i as usize].clone()) } else { None };
+				if d != want {
+					out.raw(&format!("#ORACLE-FAIL C07 view at size {} ({}): get_data({}) of leaf {} is {:?}", s, if via_rewind { "rewound" } else { "readonly" }, pos, i, d.map(|e| hex(&e.0))));
+				}
+			}
+			for pos in [2u64, 6, s.saturating_sub(1), s, s + 1, size] {
+				out.line(&format!("pmmr vdata {} {}", s, pos), &opt_elem(v.get_data(pos)));
+			}
+			for cnt in [0u64, 1, 3, k as u64, k as u64 + 2] {
+				let l = v.get_last_n_insertions(cnt);
+				let txt: Vec<String> = l.iter().map(|(h, e)| format!("{}:{}", hex(h.as_bytes()), hex(&e.0))).collect();
+				out.line(&format!("pmmr vlastn {} {}", s, cnt), &format!("[{}]", txt.join(",")));
+				let want: Vec<Elem> = elems[..k].iter().rev().take(cnt as usize).cloned().collect();
+				let got: Vec<Elem> = l.iter().map(|(_, e)| e.clone()).collect();
+				if got != want {
+					out.raw(&format!("#ORACLE-FAIL C07 view at size {}: get_last_n_insertions({}) returns {} elements, not the last {} below the size newest first", s, cnt, got.len(), want.len()));
+				}
+			}
+			for (i1, m, mp) in [(0u64, 1000u64, None), (1, 3, None), (rng.below(s + 2), rng.range(0, 6), None), (1, 1000, Some(rng.below(size + 3))), (rng.below(s + 2), 4, Some(s))] {
+				let (last, l) = v.elements_from_pmmr_index(i1, m, mp);
+				let txt: Vec<String> = l.iter().map(|e| hex(&e.0)).collect();
+				out.line(
+					&format!("pmmr velems {} {} {} {}", s, i1, m, mp.map(|x| x.to_string()).unwrap_or("none".into())),
+					&format!("{} [{}]", last, txt.join(",")),
+				);
+			}
+			out.line(&format!("pmmr vleafpos {}", s), &nat_list(&v.leaf_pos_iter().collect::<Vec<_>>()));
+			let f = rng.below(n + 2);
+			out.line(&format!("pmmr vleafidx {} {}", s, f), &nat_list(&v.leaf_idx_iter(f).collect::<Vec<_>>()));
+		}
 		// the mutable handle positioned at every earlier size (no rewind of the backend, which holds
 		// more): the same root, peaks and proofs, and nothing at or beyond its size
 		for (k, &s) in view_sizes.iter().enumerate() {
